@@ -344,6 +344,9 @@ theorem hspec_pushPromise (sid promised : Int) (block : Bytes) (c : Conn) (hwf :
       apply wp_connInput_live _ _ hwf1 (by unfold notGoaway; decide)
       · intro t hl
         wps
+        split
+        · exact CE_plain plain_pErr hl.wf.1
+        try wps
         apply wp_getStreamById_live
         · intro hex
           wps
